@@ -20,6 +20,7 @@ package version
 import (
 	"sync"
 
+	"github.com/lindb/lindb/internal/verifhook"
 	"github.com/lindb/lindb/kv/table"
 	"github.com/lindb/lindb/pkg/timeutil"
 )
@@ -149,12 +150,14 @@ func (fv *familyVersion) removeVersion(v Version) {
 
 // appendVersion swaps family's current version, then releases previous version
 func (fv *familyVersion) appendVersion(v Version) {
+	verifhook.Yield("familyVersion.appendVersion.enter")
 	previous := fv.current
 
 	fv.mutex.Lock()
 	fv.activeVersions[v.ID()] = v
 	fv.current = v
 	fv.mutex.Unlock()
+	verifhook.Yield("familyVersion.appendVersion.afterSwap")
 
 	if previous != nil && previous.NumOfRef() == 0 {
 		// remove version from family active versions
